@@ -132,8 +132,19 @@ theorem unpack_valueError_iff (L : Layout) (bs : Bytes) :
 
 /-! ## the responder -/
 
-/-- **answers iff both filters match** — for every context whose names fit the packet's name fields.
-Full statement (no `hfitN`/`hfitW`) is false: `respond_iff_fails_overlong_workgroup`. -/
+/- The statement of the property, at full strength (every context, every name):
+
+    theorem respond_iff {L} (hwf : WellFormed L = true) (c : Ctx) (d : Dgram) (wgf cnf : List Char)
+        (hreq : IsInfoRequest L d.data) (hw : reqWgFilter L d.data = some wgf) (hc : reqCtxFilter L d.data = some cnf) :
+        (∃ a out, handleRead L c d = .sent a out) ↔ (Matches wgf c.workgroup ∧ Matches cnf c.name)
+
+   It is FALSE of the code as it is (`respond_iff_fails_overlong_workgroup` below, replayed on the real responder):
+   `create` raises `ValueError` when a name does not fit its 64-byte field.  What is missing is exactly the two
+   hypotheses `hfitN`, `hfitW` of `respond_iff_partial`; `respond_overlong` says what happens without them.
+   Context names always satisfy `hfitN` (`is_valid_object_name`: ≤ 63 ASCII characters); the workgroup name is not
+   validated anywhere. -/
+
+/-- **answers iff both filters match** — for every context whose names fit the packet's name fields. -/
 theorem respond_iff_partial {L : Layout} (hwf : WellFormed L = true) (c : Ctx) (d : Dgram) (wgf cnf : List Char)
     (hreq : IsInfoRequest L d.data) (hw : reqWgFilter L d.data = some wgf) (hc : reqCtxFilter L d.data = some cnf)
     (hfitN : (cstr (utf8Encode c.name)).length ≤ L.nameLen)
@@ -412,57 +423,6 @@ theorem foreign_datagram_ignored (L : Layout) (self : List Char) (rid : Nat) (ds
   unfold discover ping
   rw [List.filterMap_append, List.filterMap_cons, h, List.filterMap_append]
 
-theorem discoverLoop_mem (self : List Char) (rs : List (Nat × Packet)) (out : List Peer)
-    (h : discoverLoop self rs = .ok out) (e : Peer) :
-    e ∈ out ↔ e.name ≠ self ∧ ∃ a p, (a, p) ∈ rs ∧ utf8Decode (cstr (p.fld 7)) = some e.name ∧
-      e.addr = a ∧ e.port = sintOf (p.fld 9) := by
-  induction rs generalizing out with
-  | nil =>
-    simp only [discoverLoop] at h
-    cases h
-    simp
-  | cons r rs ih =>
-    obtain ⟨a, p⟩ := r
-    simp only [discoverLoop] at h
-    split at h
-    · cases h
-    · rename_i name hname
-      split at h
-      · cases h
-      · rename_i more hmore
-        have ih' := ih more hmore
-        split at h
-        · rename_i hne
-          cases h
-          rw [List.mem_cons, ih']
-          constructor
-          · rintro (rfl | ⟨h1, a', p', hm, h2⟩)
-            · exact ⟨hne, a, p, List.mem_cons_self, hname, rfl, rfl⟩
-            · exact ⟨h1, a', p', List.mem_cons_of_mem _ hm, h2⟩
-          · rintro ⟨h1, a', p', hm, h2, h3, h4⟩
-            rcases List.mem_cons.1 hm with heq | hm
-            · cases heq
-              left
-              rw [hname] at h2
-              cases e
-              simp only [Option.some.injEq] at h2
-              simp_all
-            · exact Or.inr ⟨h1, a', p', hm, h2, h3, h4⟩
-        · rename_i heq
-          cases h
-          rw [ih']
-          simp only [Decidable.not_not] at heq
-          constructor
-          · rintro ⟨h1, a', p', hm, h2⟩
-            exact ⟨h1, a', p', List.mem_cons_of_mem _ hm, h2⟩
-          · rintro ⟨h1, a', p', hm, h2, h3, h4⟩
-            rcases List.mem_cons.1 hm with heq' | hm
-            · cases heq'
-              rw [hname] at h2
-              simp only [Option.some.injEq] at h2
-              exact absurd (h2 ▸ heq) h1
-            · exact ⟨h1, a', p', hm, h2, h3, h4⟩
-
 /-- **a discovery call reports only answers to its own request and never the asking context itself**
 — and all of those: an entry is in the list iff it is the (name, sender, port) of a well-formed response
 to this call's request id whose name differs from the asker's -/
@@ -486,22 +446,6 @@ theorem client_never_self {L : Layout} (hwf : WellFormed L = true) (self : List 
   fun e he => ((client_filters hwf self rid ds out h e).1 he).1
 
 /-! ## end to end -/
-
-theorem discover_cons_none (L : Layout) (self : List Char) (rid : Nat) (d : Nat × Bytes) (ds : List (Nat × Bytes))
-    (h : pingAccept L rid d = none) : discover L self rid (d :: ds) = discover L self rid ds := by
-  unfold discover ping
-  rw [List.filterMap_cons, h]
-
-theorem discover_cons_some (L : Layout) (self : List Char) (rid : Nat) (d : Nat × Bytes) (ds : List (Nat × Bytes))
-    (a : Nat) (p : Packet) (name : List Char) (more : List Peer)
-    (h : pingAccept L rid d = some (a, p)) (hn : utf8Decode (cstr (p.fld 7)) = some name)
-    (hm : discover L self rid ds = .ok more) :
-    discover L self rid (d :: ds) =
-      .ok (if name ≠ self then { name := name, addr := a, port := sintOf (p.fld 9) } :: more else more) := by
-  unfold discover ping at hm ⊢
-  rw [List.filterMap_cons, h]
-  simp only [discoverLoop, hn, hm]
-  split <;> rfl
 
 /-- **the whole property in one statement.**  A context asks with filters `wgf`, `cnf` (any text without NUL
 that fits the request); the request reaches any number of running contexts (any names the packet can carry);
